@@ -34,7 +34,7 @@ SOFT_TIMEOUT = 120
 REPLAY_ISOLATED = False  # run_one itself isolates every history in a fork
 TIERS = {
   "quick": {"runs": 640, "hard_timeout": 200, "shrink_budget": 40, "shrink_total": 240, "det_sample": 16, "confirm_timeout": 200},
-  "thorough": {"runs": 60000, "hard_timeout": 240, "shrink_budget": 150, "shrink_total": 900, "det_sample": 64, "confirm_timeout": 240},
+  "thorough": {"runs": 40000, "hard_timeout": 240, "shrink_budget": 150, "shrink_total": 900, "det_sample": 64, "confirm_timeout": 240},
 }
 RESTART_EVERY = 8
 HASHSEEDS = ["0", "1", "31337"]
@@ -58,14 +58,14 @@ VALID = {
           {"color": "white", "bg_color": "#00000080", "preserve_text_align": False}, {"safe_area": 10}],
 }
 INVALID = {
-  "general": [{"log_level": "LOUD"}, {"progress_bar": "false"}, {"progress_bar": "no"}],
+  "general": [{"log_level": "LOUD"}, {"progress_bar": "false"}, {"progress_bar": "no"}, {"progress_bar": 0}],
   "imsc_writer": [{"time_format": "smpte"}, {"time_format": "FRAMES", "fps": "25/1"}, {"fps": "25"}, {"fps": "a/b"}, {"fps": "25/0"}, {"fps": 25},
                   {"time_format": "frames"}, {"time_format": "clock_time_with_frames"}, {"time_format": "clock_time_with_frames", "fps": "30000/1001"}],
-  "stl_reader": [{"program_start_tc": "xyz"}, {"max_row_count": "abc"}, {"max_row_count": 11.5}, {"disable_fill_line_gap": "false"}, {"disable_line_padding": "no"}],
-  "srt_writer": [{"text_formatting": "false"}, {"text_formatting": "no"}],
-  "vtt_writer": [{"cue_id": "false"}, {"line_position": "no"}, {"text_align": "false"}],
+  "stl_reader": [{"program_start_tc": "xyz"}, {"max_row_count": "abc"}, {"max_row_count": 11.5}, {"disable_fill_line_gap": "false"}, {"disable_line_padding": "no"}, {"disable_fill_line_gap": 1}, {"disable_line_padding": 0}],
+  "srt_writer": [{"text_formatting": "false"}, {"text_formatting": "no"}, {"text_formatting": 1}, {"text_formatting": 0}],
+  "vtt_writer": [{"cue_id": "false"}, {"line_position": "no"}, {"text_align": "false"}, {"cue_id": 1}, {"line_position": 0}, {"text_align": 1}],
   "scc_reader": [{"text_align": "justify"}, {"text_align": ""}],
-  "lcd": [{"safe_area": -1}, {"safe_area": 31}, {"safe_area": 99}, {"color": "notacolor"}, {"bg_color": 5}, {"preserve_text_align": "false"}],
+  "lcd": [{"safe_area": -1}, {"safe_area": 31}, {"safe_area": 99}, {"color": "notacolor"}, {"bg_color": 5}, {"preserve_text_align": "false"}, {"preserve_text_align": 1}],
 }
 
 
@@ -321,6 +321,23 @@ def run_one(rng, case, stats, rec, log, ctx=None):
   if case is None:
     knobs = gen_knobs(rng)
     ops = [gen_op(rng, k, stats) for k in range(knobs["nops"])]
+    # bias: the same command again with one configuration value replaced by an equal-but-wrongly-typed twin
+    # (1 for true, 0 for false), right after the valid one was accepted
+    if rng.random() < 0.3:
+      cands = [o for o in ops if o["kind"] == "convert" and o["expect"] == "pipeline" and pipeline.effective_config(o)]
+      if cands:
+        src = rng.choice(cands)
+        eff = json.loads(json.dumps(pipeline.effective_config(src)))
+        used = pipeline.used_modules(src)
+        keys = [(mm, kk) for mm in sorted(eff) if mm in used and isinstance(eff[mm], dict) for kk in sorted(eff[mm]) if isinstance(eff[mm][kk], bool)]
+        if keys:
+          mm, kk = rng.choice(keys)
+          eff[mm][kk] = 1 if eff[mm][kk] else 0
+          twin = dict(src, config=eff, config_file=None, out=src["out"] + "2", focus=src.get("focus", []) + ["twin-after-valid"])
+          why = invalid_reason(eff, twin)
+          if why is not None:
+            twin["expect"], twin["why"] = "invalid-config", why
+            ops.insert(ops.index(src) + 1, twin)
     # bias: a failing command right before a successful one
     if rng.random() < 0.5 and len(ops) > 2:
       bad = [o for o in ops if o["expect"] != "pipeline"]
